@@ -2,8 +2,9 @@
 From Coq Require Import List NArith Bool.
 From JV.lib Require Import Bytes.
 From JV.gen Require Import ScannerTable ScannerTyping.
-From JV.model Require Import ScannerSem TableCheck TriviaCheck.
-From JV.proofs Require Import TM_Events TM_Loop ScanTheorems TM_Trivia TriviaCover KeywordSpell.
+From JV.gen Require Import DirectiveTables.
+From JV.model Require Import ScannerSem TableCheck TriviaCheck KeywordCheck.
+From JV.proofs Require Import TM_Events TM_Loop ScanTheorems TM_Trivia TriviaCover TM_Keyword KeywordSpell.
 Import ListNotations.
 
 (* the finite obligation: every (state, byte, reachable leaf) of the table regenerated from the
@@ -89,3 +90,25 @@ Print Assumptions eof_never_leaves_a_lexeme_open_table.
 Theorem keywords_spelled_table : kw_exact = true /\ kw_end_only_there = true /\ kw_states_agree = true.
 Proof. exact keywords_spelled_table_partial. Qed.
 Print Assumptions keywords_spelled_table.
+
+(* ---- lifted to the semantics ---- *)
+
+(* the fourth finite obligation: the spelling typing gen_spell (for every state inside a keyword: the bytes read since
+   KeywordBegin, as byte sets position by position; inferred by evaluation, untrusted) fits every (state, byte, reachable
+   leaf) of the regenerated table: KeywordBegin only at the current byte in a state that spells nothing, every
+   continuation leads to a state that spells one byte more, KeywordEnd only at the current byte and only when every
+   string of the spelled sets followed by that byte is a keyword of the directive table or a response code in range *)
+Theorem scanner_spelling_ok : spell_ok gen_typing gen_spell kw_known = true.
+Proof. exact gen_spell_ok. Qed.
+Print Assumptions scanner_spelling_ok.
+
+(* for every input and every sane schema library, whatever the scan ends with: the bytes data[lb .. le] of every Keyword
+   lexeme handed out are one of the 29 keywords of directive.Enumeration (every kind but the pseudo-keyword
+   HTTP-response-code) or three digits forming a number in [response_code_lo, response_code_hi] *)
+Theorem keywords_spelled : forall jsc_len enum_len data,
+  len_sane jsc_len -> len_sane enum_len -> Forall isb data ->
+  forall l, In l (scan_lexemes jsc_len enum_len data) -> lk l = LKeyword ->
+  (exists k, kind_eqb k KHTTPResponseCode = false /\ lex_bytes data l = kind_keyword k) \/
+  is_response_code (lex_bytes data l) = true.
+Proof. exact keywords_spelled_lemma. Qed.
+Print Assumptions keywords_spelled.
